@@ -57,6 +57,14 @@ def sanitize_variable_names(
         for expr_part in expr_parts
         if expr_part and expr_part[0] not in "`'\""
         for identifier in re.findall(r"[^\W\d]\w*", expr_part)
+    } | {
+        # ... and so are quoted names that are identifiers (their own alias).
+        expr_part[1:-1]
+        for expr_part in expr_parts
+        if len(expr_part) >= 2
+        and expr_part[0] == "`"
+        and expr_part[-1] == "`"
+        and expr_part[1:-1].isidentifier()
     }
 
     # Back-tick quoted names are matched whole (they may contain quote
